@@ -9,7 +9,7 @@ for line in open(os.path.join(root, 'RESULTS.txt')):
     seed, prop, code, viol, first = m.groups()
     meta = json.load(open(os.path.join(root, seed, 'meta.json')))
     note = meta.get('needs_to_manifest', '').strip().splitlines()[0] if meta.get('needs_to_manifest') else ''
-    note = re.sub(r'^(Change|CHANGE|change)\s*:?\s*', '', note)
+    note = re.sub(r'^(Changed|Change|CHANGE|change)\s*:?\s*', '', note)
     note = (note[:110] + '…') if len(note) > 110 else note
     first = first.replace(' no-failing-input-found', '').replace('xdoctest.', '')
     if not first.startswith('bounded:'):
